@@ -53,9 +53,26 @@ type FuncReport struct {
 }
 
 // unboundLoopClause: does the error message point at a loop clause of the contract (by its file:line position)?
-func unboundLoopClause(ct *Contract, msg string) (string, bool) {
-	if !strings.Contains(msg, ": spec: ") || strings.Contains(msg, "unknown identifier") {
+func unboundLoopClause(ct *Contract, msg string, fi *FuncInfo) (string, bool) {
+	if !strings.Contains(msg, ": spec: ") {
 		return "", false
+	}
+	if i := strings.Index(msg, "unknown identifier "); i >= 0 {
+		// a name that no longer occurs anywhere in the function was renamed (or removed): undecided. A name that still
+		// occurs but is not in scope where the clause is evaluated means the loops were restructured: the clause is dropped.
+		name := strings.Fields(msg[i+len("unknown identifier "):])[0]
+		still := false
+		if fi != nil && fi.Decl != nil && !strings.HasPrefix(name, "$") {
+			ast.Inspect(fi.Decl, func(n ast.Node) bool {
+				if id, ok := n.(*ast.Ident); ok && id.Name == name {
+					still = true
+				}
+				return !still
+			})
+		}
+		if !still {
+			return "", false
+		}
 	}
 	has := func(cs []Clause) (string, bool) {
 		for _, cl := range cs {
@@ -124,7 +141,7 @@ func (e *Engine) verifyFunc(fi *FuncInfo, sweep bool) *FuncReport {
 	// names a local that no longer exists (a renamed local) is not dropped: the function is then reported as outside the
 	// subset (undecided), never as a violation.
 	for try := 0; err != nil && try < 16 && c.contract != nil && !sweep; try++ {
-		pos, ok := unboundLoopClause(c.contract, err.Error())
+		pos, ok := unboundLoopClause(c.contract, err.Error(), fi)
 		if !ok {
 			break
 		}
